@@ -310,6 +310,7 @@ func (f *family) deleteObsoleteFiles() {
 		kvLogger.Error("list sst file fail when delete obsolete files", logger.String("family", f.familyInfo()))
 		return
 	}
+	verifhook.Yield("kv.delobs.afterList")
 	// make a map for all live files
 	liveFiles := make(map[table.FileNumber]string)
 	f.pendingOutputs.Range(func(key, _ interface{}) bool {
@@ -318,11 +319,13 @@ func (f *family) deleteObsoleteFiles() {
 		}
 		return true
 	})
+	verifhook.Yield("kv.delobs.afterPending")
 	// add live files
 	allLiveSSTFiles := f.familyVersion.GetAllActiveFiles()
 	for idx := range allLiveSSTFiles {
 		liveFiles[allLiveSSTFiles[idx].GetFileNumber()] = dummy
 	}
+	verifhook.Yield("kv.delobs.afterActive")
 	// add live rollup files, maybe some rollup files is not alive in current family version,
 	// but those files cannot delete, because need read those files when do rollup job
 	rollupFiles := f.familyVersion.GetLiveRollupFiles()
